@@ -567,8 +567,11 @@ def unify_axes_tags(
     }
 
     for tag, var in equations_collector.known_tag_to_var.items():
-        reachable_nodes = get_reachable_nodes(propagation_graph, var,
-                                              exclude_nodes=ignored_vars)
+        # Other tags' vertices are not propagation pathways: two axes that
+        # merely carry a common tag are not related by any array operation.
+        reachable_nodes = get_reachable_nodes(
+            propagation_graph, var,
+            exclude_nodes=ignored_vars | (known_tag_vars - {var}))
         for reachable_var in (reachable_nodes - known_tag_vars):
             axis_to_solved_tags.setdefault(
                 equations_collector.axis_to_var.inverse[reachable_var],
